@@ -31,6 +31,10 @@ func (c16) Gen(r *rand.Rand, tier string, run int) *core.Case {
 		c16genClientSide(c, r)
 		return c
 	}
+	// the identifiers of new objects are drawn at random: in some runs the
+	// first draws of an Add meet the identifier of the service's first object
+	// (which nobody removes in these runs)
+	c.Params["add_collides"] = []int{0, 0, 1, 2, 3}[r.IntN(5)]
 	objs := 2 + r.IntN(3)
 	c.Params["objects"] = objs
 	c.Params["conns"] = 1 + r.IntN(3)
@@ -115,7 +119,7 @@ func (c16) Gen(r *rand.Rand, tier string, run int) *core.Case {
 type c16obj struct {
 	// an implementation value may live several lives (added again after
 	// its removal): each life is a record of its own
-	execSlot   int  // what the implementation writes into the execution log
+	execSlot   int // what the implementation writes into the execution log
 	actor      bus.Actor
 	termBase   int  // termination hooks that ran in earlier lives
 	frozen     bool // a later life began: termAt is this life's final count
@@ -254,6 +258,12 @@ func (c16) Run(c *core.Case, env *core.Env) {
 		o.impl, o.actor = impl, actor
 		st.objs = append(st.objs, o)
 		st.mu.Unlock()
+		if n := c.P("add_collides", 0); n > 0 && c.P("first_gone", 0) == 0 && o.slot%2 == 0 {
+			for k := 0; k < n; k++ {
+				zzsim.AuxForce(uint64(w.ObjIDs[0]))
+			}
+			env.Probe("identifier-draws-meeting-a-live-object")
+		}
 		id, err := w.Svc.Add(actor)
 		zzsim.SetNode("harness")
 		env.Return(h, fmt.Sprintf("slot%d id=%d", o.slot, id), err)
